@@ -37,7 +37,9 @@ EXPLANATION = (
     ' '
     "R-C01.15 (= R-C05.8) every reader that combines the common ('*') and the field-type-specific table of _ATTRIBUTE_DEFAULTS lets the type-specific entry win (precedence evaluated for the loop/first-hit, dict-merge, update, nested-get and ChainMap forms)."
     ' '
-    'R-C01.16 every model-level mutate() queues an operation on every normal path (otherwise the mutation is not replayed when SQL is generated); ChangeField is a reasoned exemption.')
+    'R-C01.16 every model-level mutate() queues an operation on every normal path (otherwise the mutation is not replayed when SQL is generated); ChangeField is a reasoned exemption.'
+    ' '
+    'R-C01.17 (= R-C11.2) references are rewritten in the signature object that is stored; R-C01.18 (= R-C03.17) create_index_name hands the schema editor the column names, field names only as a fallback.')
 NOT_DECIDED = (
     'That the generated SQL executes and yields the same schema as creating '
     'the models from scratch, for any schema/sequence (needs SQLite and '
@@ -1203,7 +1205,46 @@ def r16_every_model_mutation_queues_an_op(ctx, rule_id='R-C01.16'):
     ctx.floor('model-level mutation classes that queue operations', n_cls, 6)
 
 
+def r17_rename_rewrites_the_stored_signature(ctx):
+    from .c11 import r2_rewrite_loops
+    r2_rewrite_loops(ctx, rule_id='R-C01.17')
+
+
+def r18_index_names_from_columns(ctx, rule_id='R-C01.18'):
+    """Django names an index after its *columns*; create_index_name() is what
+    the backends record in the DatabaseState for an index they just created.
+    When a caller passes both lists, the column names must win (`col_names or
+    field_names`): for a ForeignKey or a field with db_column the two differ,
+    the state then remembers a name the database does not have, and the
+    DROP INDEX of a later mutation of the same run names a non-existent
+    index."""
+    ctx.rule(rule_id)
+    p = ctx.program
+    f = p.func('compat.db', 'create_index_name')
+    n = 0
+    for c in walk_no_nested(f.node):
+        if isinstance(c, ast.Call) and call_name(c) == '_create_index_name' \
+                and len(c.args) >= 2:
+            n += 1
+            a = c.args[1]
+            names = [x.id for x in (a.values if isinstance(a, ast.BoolOp)
+                                    else [a]) if isinstance(x, ast.Name)]
+            if names and names[0].startswith('col'):
+                ctx.ok(f, 'the schema editor is given the column names '
+                       '(field names only as a fallback)', c)
+            else:
+                ctx.finding(f, c, 'create_index_name passes %s to the schema '
+                            'editor: for a ForeignKey / db_column field the '
+                            'recorded index name is computed from the field '
+                            'name while the real index is named after the '
+                            'column' % ' '.join(unparse(a).split()),
+                            key='index-name-from-field-names')
+    ctx.floor('_create_index_name calls in create_index_name', n, 1)
+
+
 def run(ctx):
+    r18_index_names_from_columns(ctx)
+    r17_rename_rewrites_the_stored_signature(ctx)
     r16_every_model_mutation_queues_an_op(ctx)
     r15_defaults_precedence(ctx)
     r14_m2m_through_naming(ctx)
